@@ -270,12 +270,28 @@ func c18Live(p Params) func() {
 		cli := world.NewPeer("json")
 		cs, _, _ := world.Connect(cli, srv, nil)
 		type ev struct {
-			tick, admitted, lim bool
+			tick, admitted, lim, other bool
+		}
+		half := false
+		hist := ""
+		// upper bounds on the tokens that can be available (sequential history: exact refill, no slack):
+		// full at the start, +1 per tick up to the capacity, -1 per admission; a rejection takes nothing
+		tUB, hUB := totalCap, handlerCap
+		admit := func(what string, lim bool) {
+			if tUB == 0 {
+				vsched.Failf("%s admitted although the bucket must be empty (capacity %d, every refill tick accounted for) | %s", what, totalCap, hist)
+			}
+			tUB--
+			if lim {
+				if hUB == 0 {
+					vsched.Failf("%s admitted although the handler's bucket must be empty (capacity %d) | %s", what, handlerCap, hist)
+				}
+				hUB--
+			}
 		}
 		var evs []ev
-		hist := ""
 		for i := 0; i < depth; i++ {
-			switch k := vsched.Choose(4, "op"); k {
+			switch k := vsched.Choose(5, "op"); k {
 			case 0, 1:
 				name, method, key := "call_free", hFree, "free"
 				if k == 1 {
@@ -301,6 +317,9 @@ func c18Live(p Params) func() {
 						vsched.Failf("rejected call carries %s, want the overload error | %s", world.StatStr(st), hist)
 					}
 				}
+				if st.OK() {
+					admit(name, k == 1)
+				}
 				evs = append(evs, ev{admitted: st.OK(), lim: k == 1})
 			case 2:
 				hist += "push "
@@ -317,13 +336,35 @@ func c18Live(p Params) func() {
 				if did == 0 {
 					world.Counter("pushes_dropped")
 				}
+				if did == 1 {
+					admit("push", false)
+				}
 				evs = append(evs, ev{admitted: did == 1})
+			case 4:
+				// the refill interval is changed (same capacities, still one token per tick): the limiters restart
+				// their tickers, and from now on one tick still means one refill
+				hist += "reinterval "
+				half = !half
+				iv := time.Second / totalCap
+				if half {
+					iv = time.Second / (2 * totalCap)
+				}
+				ol.Update(overloader.LimitConfig{MaxTotalQPS: totalCap, QPSInterval: iv,
+					MaxHandlerQPS: []overloader.HandlerLimit{{ServiceMethod: hLim, MaxQPS: handlerCap}}})
+				vsched.Quiesce()
+				evs = append(evs, ev{other: true})
 			case 3:
 				hist += "tick "
 				for _, t := range vtime.Tickers() {
 					t.Fire()
 				}
 				vsched.Quiesce()
+				if tUB < totalCap {
+					tUB++
+				}
+				if hUB < handlerCap {
+					hUB++
+				}
 				evs = append(evs, ev{tick: true})
 			}
 		}
@@ -340,15 +381,16 @@ func c18Live(p Params) func() {
 						lim++
 					}
 				}
-				if tot > totalCap+2*ticks {
-					vsched.Failf("%d calls/pushes admitted in a window with %d refill ticks; capacity %d + 1 per tick + 1 slack per tick | window %d..%d of %s", tot, ticks, totalCap, a, b, hist)
+				// the history is sequential (every operation runs to quiescence), so no slack for a take racing a refill
+				if tot > totalCap+ticks {
+					vsched.Failf("%d calls/pushes admitted in a window with %d refill ticks; capacity %d + 1 per tick | window %d..%d of %s", tot, ticks, totalCap, a, b, hist)
 				}
-				if lim > handlerCap+2*ticks {
+				if lim > handlerCap+ticks {
 					vsched.Failf("%d calls admitted to the limited route in a window with %d refill ticks; handler capacity %d | window %d..%d of %s", lim, ticks, handlerCap, a, b, hist)
 				}
 			}
 		}
-		if !evs[0].tick && !evs[0].admitted {
+		if !evs[0].tick && !evs[0].other && !evs[0].admitted {
 			vsched.Failf("the first message was rejected although the bucket is full | %s", hist)
 		}
 		vsched.Logf("%s", hist)
